@@ -279,9 +279,10 @@ theorem field_exact (S : Schema) (fd : FD) : ∀ (f : F) (ops : List EncOp),
     | msg i =>
       simp only [hty] at hv
       simp only [opsField, hty] at ho
-      have hsz : sizeField S fd (.many vs) = sizeMsgList S (S.md i) fd.num vs := by simp only [sizeField, hty]
+      have hsz : sizeField S fd (.many vs) = sizeMsgList S (S.md i) fd.num fd.card.isMap vs := by
+        simp only [sizeField, hty]
       rw [hsz]
-      exact msgList_exact S (S.md i) fd.num vs ops ht hv ho
+      exact msgList_exact S (S.md i) fd.num fd.card.isMap vs ops ht hv ho
 
 theorem msgV_exact (S : Schema) (md : MD) : ∀ (v : V) (body : Bytes),
     OKMsgV S md v → bytesMsgV S md v = .ok body → sizeMsgV S md v = body.length
@@ -298,24 +299,30 @@ theorem msgV_exact (S : Schema) (md : MD) : ∀ (v : V) (body : Bytes),
   | .num _, body, _, hb => by simp only [bytesMsgV] at hb; cases hb; rfl
   | .bs _, body, _, hb => by simp only [bytesMsgV] at hb; cases hb; rfl
 
-theorem msgList_exact (S : Schema) (md : MD) (tag : Nat) : ∀ (vs : List V) (ops : List EncOp),
-    ValidTag tag → OKMsgList S md vs → opsMsgList S md tag vs = .ok ops →
-    sizeMsgList S md tag vs = (wiresOf ops).length ∧ ∀ op ∈ ops, OpExact op
+theorem msgList_exact (S : Schema) (md : MD) (tag : Nat) (sk : Bool) : ∀ (vs : List V) (ops : List EncOp),
+    ValidTag tag → OKMsgList S md vs → opsMsgList S md tag sk vs = .ok ops →
+    sizeMsgList S md tag sk vs = (wiresOf ops).length ∧ ∀ op ∈ ops, OpExact op
   | [], ops, _, _, ho => by
     simp only [opsMsgList] at ho; cases ho; exact ⟨by simp [sizeMsgList, wiresOf], by simp⟩
   | v :: vs, ops, ht, hok, ho => by
     simp only [OKMsgList] at hok
     simp only [opsMsgList] at ho
+    by_cases hn : (sk && nilEntry md v) = true
+    · -- a nil-valued entry of a message-valued map: nothing counted, nothing written
+      rw [if_pos hn] at ho
+      obtain ⟨s, x⟩ := msgList_exact S md tag sk vs ops ht hok.2 ho
+      exact ⟨by simp only [sizeMsgList, if_pos hn, s, Nat.zero_add], x⟩
+    rw [if_neg hn] at ho
     cases hb : bytesMsgV S md v with
     | ok body =>
       rw [hb] at ho
-      cases hr : opsMsgList S md tag vs with
+      cases hr : opsMsgList S md tag sk vs with
       | ok rest =>
         rw [hr] at ho; cases ho
         have hl := msgV_exact S md v body hok.1 hb
-        obtain ⟨s, x⟩ := msgList_exact S md tag vs rest ht hok.2 hr
+        obtain ⟨s, x⟩ := msgList_exact S md tag sk vs rest ht hok.2 hr
         refine ⟨?_, ?_⟩
-        · simp only [sizeMsgList, hl, s, wiresOf_cons, List.length_append]
+        · simp only [sizeMsgList, if_neg hn, hl, s, wiresOf_cons, List.length_append]
           rw [nested_wire_length tag body ht]
         · intro op hop
           rcases List.mem_cons.mp hop with rfl | h
@@ -326,6 +333,17 @@ theorem msgList_exact (S : Schema) (md : MD) (tag : Nat) : ∀ (vs : List V) (op
     | err => rw [hb] at ho; cases ho
     | panic => rw [hb] at ho; cases ho
 end
+
+/-! ## which loops have the nil test -/
+
+theorem isMap_of_ne {c : Card} (h : c ≠ .map) : c.isMap = false := by
+  cases c <;> first | rfl | exact absurd rfl h
+theorem isMap_of_eq {c : Card} (h : c = .map) : c.isMap = true := by subst h; rfl
+theorem isMap_list {c : Card} (h : c = .list) : c.isMap = false := by subst h; rfl
+
+/-- only an entry whose value position holds the nil pointer is passed over -/
+theorem nilEntry_set (md : MD) (f0 : F) (v : V) (rest : List F) (u : Bytes) :
+    nilEntry md (.msg (f0 :: .one v :: rest) u) = false := by simp [nilEntry, valUnset]
 
 /-! ## the functional description of the calls never panics -/
 
@@ -355,7 +373,7 @@ theorem opsField_no_panic (S : Schema) (fd : FD) : ∀ (f : F), opsField S fd f 
     simp only [opsField]
     cases hty : fd.ty with
     | sc k => simp only []; cases fd.card <;> simp
-    | msg i => simp only []; exact opsMsgList_no_panic S (S.md i) fd.num vs
+    | msg i => simp only []; exact opsMsgList_no_panic S (S.md i) fd.num fd.card.isMap vs
 theorem bytesMsgV_no_panic (S : Schema) (md : MD) : ∀ (v : V), bytesMsgV S md v ≠ .panic
   | .msg fs unk => by
     have := opsFields_no_panic S md fs
@@ -363,14 +381,17 @@ theorem bytesMsgV_no_panic (S : Schema) (md : MD) : ∀ (v : V), bytesMsgV S md 
     cases ho : opsFields S md fs <;> simp_all
   | .num _ => by simp [bytesMsgV]
   | .bs _ => by simp [bytesMsgV]
-theorem opsMsgList_no_panic (S : Schema) (md : MD) (tag : Nat) : ∀ (vs : List V), opsMsgList S md tag vs ≠ .panic
+theorem opsMsgList_no_panic (S : Schema) (md : MD) (tag : Nat) (sk : Bool) :
+    ∀ (vs : List V), opsMsgList S md tag sk vs ≠ .panic
   | [] => by simp [opsMsgList]
   | v :: vs => by
     have h1 := bytesMsgV_no_panic S md v
-    have h2 := opsMsgList_no_panic S md tag vs
+    have h2 := opsMsgList_no_panic S md tag sk vs
     simp only [opsMsgList]
+    split
+    · exact h2
     cases hb : bytesMsgV S md v with
-    | ok body => cases hr : opsMsgList S md tag vs <;> simp_all
+    | ok body => cases hr : opsMsgList S md tag sk vs <;> simp_all
     | err => simp
     | panic => exact absurd hb h1
 end
